@@ -33,17 +33,17 @@ func writeEvidence(prop, tier string, seed uint64, stats map[string]any, viols [
 		samples = []any{"(no sample recorded)"}
 	}
 	cov := map[string]any{
-		"evaluations":         evals,
-		"distinct_nontrivial": distinct,
-		"rule":                meta.rule,
-		"samples":             samples,
-		"cases":               num(stats, "cases_run"),
-		"runs_per_hour":       int(float64(evals) / wall * 3600),
-		"simulated_time":      "not applicable: the library has no timers or deadlines; logical steps (ticks, events) are reported instead",
+		"evaluations":                   evals,
+		"distinct_nontrivial":           distinct,
+		"rule":                          meta.rule,
+		"samples":                       samples,
+		"cases":                         num(stats, "cases_run"),
+		"runs_per_hour":                 int(float64(evals) / wall * 3600),
+		"simulated_time":                "not applicable: the library has no timers or deadlines; logical steps (ticks, events) are reported instead",
 		"truncated_by_wall_clock_guard": stats["truncated"],
-		"violation_groups":    viols,
-		"real_components":     []string{"all code of jsight-api-go-library and jsight-schema-go-library (rewritten copy of the current working tree)", "real sync.RWMutex/Once inside the simrt wrappers", "Go race detector (C16)"},
-		"stubbed_components":  []string{"file system (simrt.Disk)", "map iteration order", "sync.Pool free list", "goroutine scheduling choice", "clock", "math/rand stream"},
+		"violation_groups":              viols,
+		"real_components":               []string{"all code of jsight-api-go-library and jsight-schema-go-library (rewritten copy of the current working tree)", "real sync.RWMutex/Once inside the simrt wrappers", "Go race detector (C16)"},
+		"stubbed_components":            []string{"file system (simrt.Disk)", "map iteration order", "sync.Pool free list", "goroutine scheduling choice", "clock", "math/rand stream"},
 	}
 	for k, v := range stats {
 		switch k {
